@@ -19,8 +19,9 @@ CONFIG = dict(
     assumptions=["ASCII case folding: streams in which a case-insensitively compared keyword contains bytes >= 0x80 are judged by the oracle only",
                  "library code below the reader (mime word decoding, net/mail dates, go-message message ids, utf7) is exercised by the fuzzing, not modelled"],
     leanchecker=True,
+    source_facts=True,
     shrink={k: _SHRINK for k in ("corpus", "gen", "mut", "num", "lit", "raw")},
     timeout={"quick": 900, "thorough": 7200, "widen": 3600},
-    level_text="proof; partial: for every input the mirrored response reader never reaches the decoder's panic site (parse_no_panic), never nests beyond the decoder's limit (depth_bounded), hands over no message number 0 and only canonical sets without '*' (delivered_nonzero, delivered_sets_static), and the enumerating accessors do not panic on what it hands over (accessors_no_panic); the ghost cost of the SORT/SEARCH number readers is at most 4 reads per input byte (cost_linear, proved for these two parsers only); the enumerating accessor returns exactly card(s) numbers and a 52-byte response with card = 2^32-1 exists (F25, machine-checked); concrete instances (zero, '*', overflow, nesting, malformed literal are errors) and Legacy counterexamples for every repaired defect by kernel evaluation. The mirror is tied to the real client on every run and a Lean oracle judges every stream: no panic in reader or accessors, no fatal event, termination, nothing invalid handed over, coarse CPU-time/allocation growth",
-    level_note="Trusted: Lean kernel; harness/driver; library code below the reader. Time and memory are measured (CPU time of a child process at sizes n and 2n, runtime.MemStats), not proved; linear ghost cost is proved for the SORT and SEARCH readers only. Two findings are recorded as known, not repaired: the enumerating accessors are super-linear in the input by design (F25), and number sets kept as sorted slices make descending input quadratic (F27).",
+    level_text="proof; partial: for every input the mirrored response reader ends in a real outcome (fuel_suffices), never reaches the decoder's panic site (parse_no_panic), never nests beyond the decoder's limit and hands over no tree deeper than it (depth_bounded, delivered_depth_bounded), hands over only non-zero 32-bit message numbers and only canonical sets without '*' (delivered_nonzero, delivered_sets_static), every reader answers 0 / '*' / one level too many / an out-of-range number / a malformed literal with an error (invalid_is_error), the enumerating accessors do not panic on what is handed over (accessors_no_panic), and the ghost cost of the whole client is at most 61 byte reads per input byte + 41 (cost_linear); the enumerating accessor returns exactly card(s) numbers and a 52-byte response with card = 2^32-1 exists (F25, machine-checked); Legacy counterexamples for every repaired defect by kernel evaluation. The mirror is tied to the real client on every run and a Lean oracle judges every stream: no panic in reader or accessors, no fatal event, termination, nothing invalid handed over (incl. negative 64-bit numbers), coarse CPU-time/allocation growth",
+    level_note="Trusted: Lean kernel; harness/driver; library code below the reader. Time and memory are measured (CPU time of a child process at sizes n and 2n, runtime.MemStats), not proved; the cost theorem is about the model's count of byte reads. Readers outside the model (LIST, STATUS, QUOTA, METADATA, NAMESPACE, body section literals) are judged by the oracle only. Two findings are recorded as known, not repaired: the enumerating accessors are super-linear in the input by design (F25), and number sets kept as sorted slices make descending input quadratic (F27).",
 )
